@@ -29,7 +29,7 @@ RULE = ("exponent maps over 1-4 symbols (every order), integer exponents in [-4,
         "back, and MeasurementArray.append / insert / item assignment are exercised on arrays "
         "built the same way; the printed string is also fed to the Lean parser model and the Lean "
         "printer's string to the real parser.  Non-trivial = no positive exponent, or a "
-        "non-integer exponent; quick: all single-symbol maps + 500 sampled; thorough: exhaustive")
+        "non-integer exponent; quick: all single-symbol maps + 500 sampled; thorough: exhaustive.  Settings that are not about units (print style latex / scientific by every route, significant figures, MC sample size, plot size) stay in force at the judged print in a third of all cases; some cases start a new process (also run in a fork of a fresh interpreter)")
 ASSUMPTIONS = ["exponents with denominator <= 10 (Fraction.limit_denominator(10) is the identity "
                "there); binary64 exponents p/q are read back as exact fractions",
                "no compound-unit definitions active AT THE TIME of the judged print (definitions that "
